@@ -19,6 +19,12 @@ CHECKS = {
    text="Every operation the captured checker text can execute on its subject is proved to be in the read-only whitelist, iteration (iter/next) only under an established isinstance(x, Collection), object-key subscription only with a key proved present (no defaultdict insertion); any other method call or construct aborts as unsupported (exit 3) rather than passing.",
    note=GEN_NOTE + ' iter() of a real Collection returns a fresh iterator; __len__/__getitem__/__iter__ of builtin containers are read-only (CPython contract).', ref='4 (C10)'),
 }
+CHECKS['C12'] = dict(cat='proof', tech='contract-based deductive verification: the real is_valid callables and the real validator code strings executed symbolically (pyvc) and proved equivalent to the boolean meaning, z3 + cvc5',
+   text="For every validator of the palette the REAL is_valid callable (lambdas / nested defs / closures of the factories, located by code object in the working tree, callee validators inlined) and the REAL is_valid_code string under the real is_valid_code_locals are executed symbolically and each proved equivalent, for ALL objects (incl. objects lacking the attribute, non-classes for IsSubclass), to the boolean meaning written from the property text; definedness (no issubclass on a non-class, no read of an unassigned walrus temporary) and closedness of the code string are obligations. Node shapes use abstract operands Is[f1], Is[f2] (induction step).",
+   note='Trusted: pyvc, z3/cvc5, Python semantics of pyvc/model.py. Assumed: user callables deterministic and bool-like; no attribute value is the private SENTINEL; nesting beyond depth 4 by induction from the node lemmas; Annotated[T, V...] acceptance itself is proved on generated checkers under C01/C02; the message verdict is computed via is_valid (C03).', ref='4 (C12)')
+CHECKS['C18'] = dict(cat='proof', tech='contract-based deductive verification: program equivalence of two captured real generated checkers (rewriting conf vs hand-rewritten hint), one z3 query per pair for all objects and draws',
+   text="For every enumerated shape containing float / complex / an overridden hint, the checker generated under the rewriting configuration (is_pep484_tower, hint_overrides incl. NewType and subscripted keys and self-referential overrides, violation_*type) and the checker generated for the hand-rewritten hint under the default configuration are captured from the real generator and proved logically equivalent for ALL objects and ALL draws; both are also proved defined.",
+   note='Trusted: pyvc, z3/cvc5, Python semantics of pyvc/model.py. Bounded in the shape (depth <= 3, seeded sample); the hand rewrite is a single simultaneous textual substitution; aliases hiding the overridden class (NewType/TypeVar over it) are excluded as not being textual occurrences; the explanation path is not covered.', ref='4 (C18)')
 NA = {}
 def main():
     props = [json.loads(l) for l in open(os.path.join(V, 'properties.jsonl'))]
